@@ -47,7 +47,21 @@ def configs(tier, seed):
                             K *= x
                     out.append(C03._base(2, dims, 2, [i % 2] * len(dims), agg, weights=["none", "array"][i % 2], ignore=bool((i // 2) % 2),
                                          fmt="nan", side=side, pooled=pooled, K_sub=K))
+    # an interrupt that is not an Exception subclass (KeyboardInterrupt-like): serial and pooled
+    for side in ("ccube", "xcube"):
+        for pooled in (False, True):
+            out.append(C03._base(2, [[2]], 2, [0], "count", weights="none", ignore=False, fmt="nan", side=side, pooled=pooled, K_sub=2,
+                                 exc_base=True))
     return out
+
+
+class InterruptBase(BaseException):
+    """An interrupt that does not derive from Exception (as KeyboardInterrupt, SystemExit)."""
+
+
+class PoolHang(BaseException):
+    """multiprocessing.pool's worker loop only catches Exception: any other exception kills the worker thread, the task's
+    result is never set and map() never returns."""
 
 
 class StubPool:
@@ -65,6 +79,8 @@ class StubPool:
                 raise
             except Exception as ex:
                 excs.append(ex)
+            except BaseException as ex:
+                raise PoolHang("%s raised in a worker task" % type(ex).__name__)
         if excs:
             raise excs[0]
         return []
@@ -98,6 +114,11 @@ def explore(cfg, eng, ctx):
     D = len(cfg["dims"])
     ishape = tuple([cfg["E"]] * D)
 
+    exc_cls = InterruptBase if cfg.get("exc_base") else Interrupt
+    if cfg.get("exc_base") and pooled and "F29-pooled-interrupt-not-an-exception-subclass" in ctx.excl:
+        ctx.notes["vacuous_ok"] = True      # the whole configuration is the recorded finding's region
+        return
+
     def path():
         data = aggs.Data(eng, cfg)
         fault = z3.Int("fault")
@@ -107,7 +128,8 @@ def explore(cfg, eng, ctx):
         def builder(model):
             c = data.case(model)
             c.update(kind="interrupt", agg=agg, ignore=ignore, fmt="nan", commons=cfg["commons"], ishape=list(ishape), side=side,
-                     pooled=pooled, K_sub=K, fault=S.ev(model, fault), subset=[S.ev(model, b) for b in subset])
+                     pooled=pooled, K_sub=K, fault=S.ev(model, fault), subset=[S.ev(model, b) for b in subset],
+                     exc_base=bool(cfg.get("exc_base")))
             return c
         ctx.case_builder = builder
         fact, weights = data.fact(), data.weights()
@@ -119,7 +141,7 @@ def explore(cfg, eng, ctx):
             state["calls"] += 1
             hit = SBool(subset[j]) if pooled and j < K else S.mkbool(fault == j)
             if bool(hit):
-                raise Interrupt(j)
+                raise exc_cls(j)
         try:
             if side == "ccube":
                 cube = C.ccubes.ccube(data.index_dims(C, cfg["commons"]), interacting_shape=ishape)
@@ -139,8 +161,11 @@ def explore(cfg, eng, ctx):
         raised = None
         try:
             cube.calculate([f])
-        except Interrupt as ex:
+        except (Interrupt, InterruptBase) as ex:
             raised = ex
+        except PoolHang as ex:
+            eng.assert_(False, "pooled calculate never returns: %s" % ex)
+            return
         except (Violation, Abort, Inconclusive, HarnessError):
             raise
         except Exception as ex:
